@@ -227,6 +227,53 @@ def run_part(ctx):
                "MarkMap builder_sequence (CTParserBuilder header merge): implementation = Coq mirror = the statement of "
                "C13_settings_in_force on %d sequences" % nb)
     ctx.coverage["markmap_builder_sequence"] = {"sequences": nb, "differences": bdiff, "prediction_failures": bpred, **bstat}
+    # family lex_builder_sequence: the header sequence of CTLexerBuilder::build_inner + LexFlags::try_from
+    # (C13/LexSettingsModel.v): model = real MarkMap, and the real MarkMap's answers = what C13_lex_settings_in_force states
+    # (merge_from Ok under the default Ours; each flag = the builder's when set, else the section's; lexerkind = the
+    # builder's field, else the section's; unused = the other keys in key order)
+    nl = ctx.n(100, 3000)
+    lcases = [markmapgen.lex_builder_sequence(ctx.rng) for _ in range(nl)]
+    lseqs = [c[0] for c in lcases]
+    llines = [markmapgen.line(s) for s in lseqs]
+    louts = core.run_lines([exe], llines, shards=1)
+    lmods = eval_model(lseqs, "l")
+    ldiff, lpred, lstat = 0, 0, {"builder_gives": 0, "section_gives": 0, "both_give": 0, "unknown_keys": 0,
+                                 "lexerkind_field": 0, "lexerkind_section": 0, "lexerkind_default": 0}
+    for (s, lk, given, section), ln, out, tr in zip(lcases, llines, louts, lmods):
+        impl, mod = norm_impl(out), render_model(tr)
+        ctx.case(ln, True)
+        for k in markmapgen.LEX_FLAG_KEYS:
+            if k in given:
+                lstat["both_give" if k in section else "builder_gives"] += 1
+            elif k in section:
+                lstat["section_gives"] += 1
+        lstat["unknown_keys"] += sum(1 for k in section if k not in markmapgen.LEX_KEYS)
+        want, in_force = markmapgen.lex_builder_expected_tail(lk, given, section)
+        lstat["lexerkind_field" if lk is not None else
+              ("lexerkind_section" if "lexerkind" in section else "lexerkind_default")] += 1
+        bad = None
+        try:
+            tail = [[int(x) for x in r.split()] for r in impl.split(" # ")[0].split(" | ")][-28:]
+        except ValueError:
+            tail = None
+        got_lk = None
+        if tail and len(tail) == 28:
+            got_lk = lk if lk is not None else (tail[2][1] if len(tail[2]) == 2 else None)
+        if impl != mod:
+            ldiff += 1
+            bad = "MarkMap (lex_builder_sequence): implementation differs from the Coq mirror C12/MarkMapModel.v"
+        elif "PANIC" in impl or tail != want or got_lk != in_force:
+            lpred += 1
+            bad = "MarkMap (lex_builder_sequence): the settings in force differ from C13_lex_settings_in_force"
+        if bad and ldiff + lpred <= 5:
+            ctx.violation({"broken": bad, "sequence": ln, "coq_term": markmapgen.coq_term(s), "builder_lexerkind": lk,
+                           "builder_flags": given, "section": section, "impl_transcript": impl, "model_transcript": mod,
+                           "expected_tail": want,
+                           "replay_cmd": "echo '%s' | .work/target/release/markmap" % ln}, no_input=False)
+    ctx.oblige(ldiff == 0 and lpred == 0 and len(louts) == nl,
+               "MarkMap lex_builder_sequence (CTLexerBuilder header merge): implementation = Coq mirror = the statement of "
+               "C13_lex_settings_in_force on %d sequences" % nl)
+    ctx.coverage["markmap_lex_builder_sequence"] = {"sequences": nl, "differences": ldiff, "prediction_failures": lpred, **lstat}
     ctx.oblige(ndiff == 0 and ncompared == n,
                "MarkMap: implementation = Coq mirror (C12/MarkMapModel.v) on %d operation sequences (%d operations)"
                % (ncompared, nops))
